@@ -128,7 +128,7 @@ def run(ctx):
                  "every one of the 12 orientation rows is one of the four reference layouts (unknown rows: %s)" % unknown)
     # classification
     if ISCW not in facts.fns:
-        run.missing("C18.D2", ISCW)
+        run.note("is_layout_clockwise no longer exists as a function: the winding classification is decided through C18.D3 winding-direction over the four reference layouts")
     else:
         ft = fn_terms(facts, ISCW)
         compared = []
@@ -180,45 +180,53 @@ def run(ctx):
             i2, l2 = slot(or2)
             run.inst("C18.D3", "orientation-source", bool(l1 and l2), "both directions return origin.orientation[slot]", where(facts.fns[Q2S]["span"]))
             fq = ("field", ("deref", ("param", 2)), "first_quintant")
-            cw1 = [c for c in f1.calls() if c.callee == ISCW]
-            cw2 = [c for c in f2.calls() if c.callee == ISCW]
-            if len(cw1) != 1 or len(cw2) != 1 or i1 is None or i2 is None:
-                run.bad("C18.D3", "winding-source", "each direction must take the winding from one is_layout_clockwise call (found %d / %d)" % (len(cw1), len(cw2)))
-            else:
-                same_arg = strip_site(cw1[0].args[0]) == strip_site(cw2[0].args[0])
-                run.inst("C18.D3", "winding-source", same_arg and any(x[0] == "field" and x[2] == "orientation" for x in walk(cw1[0].args[0])),
-                         "both directions classify origin.orientation: %s" % fmt(cw1[0].args[0]), where(cw1[0].span))
-                k1 = strip_site(("call", ISCW, tuple(cw1[0].args), None))
-                k2 = strip_site(("call", ISCW, tuple(cw2[0].args), None))
+            # the winding of a face is a function of its orientation row: the formulas are evaluated for each of the
+            # four reference layouts bound to origin.orientation (whether the classification is a helper, a match or inline)
+            okey = strip_site(("field", ("deref", ("param", 2)), "orientation"))
+            uses1 = any(strip_site(x) == okey for r in r1 for x in walk(r)) or any(strip_site(x) == okey for c in f1.calls() for a in c.args for x in walk(a))
+            uses2 = any(strip_site(x) == okey for r in r2 for x in walk(r)) or any(strip_site(x) == okey for c in f2.calls() for a in c.args for x in walk(a))
+            run.inst("C18.D3", "winding-source", uses1 and uses2 and i1 is not None and i2 is not None,
+                     "both directions derive the winding from origin.orientation", where(facts.fns[Q2S]["span"]))
+            if i1 is not None and i2 is not None:
                 failures = []
+                wrong_dir = []
                 cases = 0
                 try:
-                    for fqv in range(5):
-                        for cw in (0, 1):
+                    for lname, lay in sorted(layouts.items()):
+                        if lay is None:
+                            raise Undetermined("layout table %s unreadable" % lname)
+                        cw = 1 if lay in cw_ref else 0
+                        for fqv in range(5):
                             img = []
                             for q in range(5):
                                 cases += 1
-                                env1 = {("param", 1): q, strip_site(fq): fqv, k1: cw}
+                                env1 = {("param", 1): q, strip_site(fq): fqv, okey: tuple(lay)}
                                 seg = ieval(f1, seg_t, env1)
                                 s1 = ieval(f1, i1, env1)
-                                env2 = {("param", 1): seg, strip_site(fq): fqv, k2: cw}
+                                env2 = {("param", 1): seg, strip_site(fq): fqv, okey: tuple(lay)}
                                 qb = ieval(f2, qui_t, env2)
                                 s2 = ieval(f2, i2, env2)
                                 img.append(seg)
                                 if not (0 <= seg <= 4 and 0 <= s1 <= 4 and 0 <= s2 <= 4):
-                                    failures.append("first_quintant=%d clockwise=%d quintant=%d: segment %d / slots %d,%d out of 0..4" % (fqv, cw, q, seg, s1, s2))
+                                    failures.append("first_quintant=%d layout=%s quintant=%d: segment %d / slots %d,%d out of 0..4" % (fqv, lname, q, seg, s1, s2))
                                 elif qb != q:
-                                    failures.append("first_quintant=%d clockwise=%d: quintant %d -> segment %d -> quintant %d" % (fqv, cw, q, seg, qb))
+                                    failures.append("first_quintant=%d layout=%s: quintant %d -> segment %d -> quintant %d" % (fqv, lname, q, seg, qb))
                                 elif s1 != s2:
-                                    failures.append("first_quintant=%d clockwise=%d quintant=%d: orientation slot %d one way, %d back" % (fqv, cw, q, s1, s2))
+                                    failures.append("first_quintant=%d layout=%s quintant=%d: orientation slot %d one way, %d back" % (fqv, lname, q, s1, s2))
                             if sorted(img) != [0, 1, 2, 3, 4]:
-                                failures.append("first_quintant=%d clockwise=%d: quintant -> segment is not a bijection: %s" % (fqv, cw, img))
+                                failures.append("first_quintant=%d layout=%s: quintant -> segment is not a bijection: %s" % (fqv, lname, img))
+                            # direction: the quintant after the first one is labelled first-1 on clockwise faces, first+1 otherwise
+                            nxt = img[(fqv + 1) % 5]
+                            if nxt != (fqv + (4 if cw else 1)) % 5:
+                                wrong_dir.append("layout %s (%s) with first_quintant=%d: next quintant gets segment %d" % (lname, "clockwise" if cw else "counter-clockwise", fqv, nxt))
                     run.inst("C18.D3", "relabelling-inverse-bijection", not failures,
-                             "%d (first quintant, winding, quintant) cases evaluated on the MIR-derived formulas: mutually inverse bijections using the same orientation slot" % cases
+                             "%d (layout, first quintant, quintant) cases evaluated on the MIR-derived formulas: mutually inverse bijections using the same orientation slot" % cases
                              if not failures else failures[0], where(facts.fns[Q2S]["span"]))
+                    run.inst("C18.D3", "winding-direction", not wrong_dir,
+                             "segments run against the quintant order exactly on the two clockwise reference layouts" if not wrong_dir else wrong_dir[0], where(facts.fns[Q2S]["span"]))
                     run.extra["d3_cases"] = cases
                 except Undetermined as e:
-                    run.bad("C18.D3", "relabelling-inverse-bijection", "formula depends on something other than (quintant, first_quintant, winding): %s - cannot decide" % e)
+                    run.bad("C18.D3", "relabelling-inverse-bijection", "formula depends on something other than (quintant, first_quintant, orientation row): %s - cannot decide" % e)
 
     # ---------------- D4
     if FNO not in facts.fns:
